@@ -37,6 +37,14 @@ type caseCtx struct {
 	kidMode  string // right, absent, other, unknown
 	algMode  string // allowed, outside
 	mkEvil   func(marker string) []byte
+
+	// op-jwt-assertion only: the subject dimension. The trust set stays "keys the storage holds for the client
+	// named in iss" (c.S), whatever sub says.
+	sub        string    // "sub" claim of the payloads ("" = same as who)
+	subMode    string    // iss, other-client, unknown
+	otherS     []ksEntry // keys registered for the client named in sub (never for who)
+	permissive bool      // verifier built with a custom SubjectCheck that permits sub != iss
+	signerOf   string    // iss-client, sub-client, unregistered
 }
 
 type presented struct {
